@@ -4,7 +4,7 @@ print(r['evaluations'], r['distinct_nontrivial'], r['model_ops'], r.get('notes')
 print({k:v for k,v in r['distribution'].items() if k.startswith('DISAGREE') or len(sys.argv)>3})
 seen={}
 lim=int(sys.argv[2]) if len(sys.argv)>2 else 1
-for d in r['disagreements']:
+for d in (r["disagreements"] or []):
     key=(d['kind'],d['check'])
     seen[key]=seen.get(key,0)+1
     if seen[key]>lim: continue
